@@ -24,24 +24,11 @@ def read_fails(path):
     return out
 
 
-@pipeline("C16")
-def c16(ctx, replay):
-    thorough = ctx.tier == "thorough"
-    ctx.rule = ("(i) schedules = every maximal behaviour of InnovPar for 2 threads (scenarios split-split, link-link, split-link; thorough: "
-                "also two mutations per thread and sampled 3-thread schedules), each forced on real goroutines calling the real "
-                "mutateAddNode / mutateAddLink on a shared real Population through a gate at every primitive; outcomes validated by "
-                "Trace_InnovPar; (i') every interleaving of the primitive calls the real mutators themselves make (2 threads exhaustively, 3 threads "
-                "up to a cap; also with a pre-filled registry) found by a stateless search over which parked goroutine runs next, same "
-                "validation; (ii) every access to the innovation record in sequential and parallel epochs probed for the mutex "
-                "(Trace_LockSet); (iii) free-running parallel epochs under the Go race detector at GOMAXPROCS 1/4/16; (iv) parallel "
-                "epochs of the C02 scenario matrix validated by Trace_Epoch (C01/C02/C03 clauses); non-trivial = schedules in which "
-                "both threads looked the registry up before either stored (both miss)")
-    ctx.assumptions = ["non-modular genomes (quantifier)",
-                       "data-race freedom of the Go program is decided on observed executions (race detector) and by the lock-set probe; "
-                       "TLC decides the protocol for all interleavings within the model's bounds",
-                       "a schedule the real code does not follow is nonconformance (information), not a violation"]
-    ctx.vh_binary(pkg="vh_genome")
-    # ---------------------------------------------------------------- (i) protocol: model checking + schedule replay
+def forced_schedules(ctx, replay, prop, cfgs, sim_n, asfound=True, clauses=None):
+    """(i) protocol: TLC enumerates every maximal behaviour of InnovPar for the given scenarios (plus sampled 3-thread ones),
+    each schedule is forced on real goroutines through the gates, the outcomes are validated by Trace_InnovPar.  The clauses
+    of Trace_InnovPar are named C16:...; they are reported for `prop` (C03 re-uses the stage for its "one meaning per number /
+    issued numbers are fresh" sentences, which hold under either executor)."""
     sched_file = ctx.path("schedules.ndjson")
     if replay is not None:
         cases = [v["replay"]["failure"]["case"] for v in replay.get("violations", []) if v.get("replay", {}).get("kind") == "schedule"
@@ -49,18 +36,19 @@ def c16(ctx, replay):
         write_lines(sched_file, cases)
     else:
         files = []
-        cfgs = ["split-split", "link-link", "split-link"] + (["two-each"] if thorough else [])
         for sc in cfgs:
             mc = ctx.tlc("MC_InnovPar", "MC_InnovPar_%s.cfg" % sc, timeout=1800, workers=4)
             spec_must_hold(mc, "MC_InnovPar/" + sc)
             files.append(mc.cases_file)
-        sim = ctx.tlc("MC_InnovPar", "Sim_InnovPar_3.cfg", simulate="num=%d" % (3000 if thorough else 150), depth=40,
-                      extra=["-seed", str(ctx.seed)], timeout=1200, workers=1)
-        spec_must_hold(sim, "MC_InnovPar/3 threads")
-        files.append(sim.cases_file)
-        asfound = ctx.tlc("MC_InnovPar", "MC_InnovPar_asfound.cfg", timeout=600, workers=2, count=False)
-        if asfound.violated != "RaceFree":
-            raise Infra("the as-found variant of InnovPar (unprotected read) must violate RaceFree - the model lost its bite")
+        if sim_n:
+            sim = ctx.tlc("MC_InnovPar", "Sim_InnovPar_3.cfg", simulate="num=%d" % sim_n, depth=40,
+                          extra=["-seed", str(ctx.seed)], timeout=1200, workers=1)
+            spec_must_hold(sim, "MC_InnovPar/3 threads")
+            files.append(sim.cases_file)
+        if asfound:
+            af = ctx.tlc("MC_InnovPar", "MC_InnovPar_asfound.cfg", timeout=600, workers=2, count=False)
+            if af.violated != "RaceFree":
+                raise Infra("the as-found variant of InnovPar (unprotected read) must violate RaceFree - the model lost its bite")
         cat_files(sched_file, files)
     if os.path.getsize(sched_file) > 0:
         outc = ctx.path("schedules.out.ndjson")
@@ -75,25 +63,51 @@ def c16(ctx, replay):
         nonconf = 0
         lines = None
         for f in read_fails(r.cases_file):
-            mine = [x for x in f["fails"] if x.startswith("C16:")]
+            mine = [x for x in f["fails"] if x.startswith("C16:") and (clauses is None or any(c in x for c in clauses))]
             nonconf += len([x for x in f["fails"] if x.startswith("conf:")])
             if mine:
+                if prop != "C16":
+                    mine = [prop + x[3:] for x in mine]
                 if lines is None:
                     with open(sched_file) as fh:
                         lines = fh.readlines()
                 case = json.loads(lines[f["l"] - 1]) if f["l"] - 1 < len(lines) else None
                 ctx.violation("schedule %s: %s" % (json.dumps(case.get("sched")) if case else f["l"], "; ".join(mine)),
-                              "C16 schedule " + mine[0], {"kind": "schedule", "failure": {"case": case, "clauses": mine}})
+                              "%s schedule %s" % (prop, mine[0]), {"kind": "schedule", "failure": {"case": case, "clauses": mine}})
         ctx.extra["schedule_nonconformance"] = nonconf
         both_miss = 0
         with open(sched_file) as fh:
             for i, line in enumerate(fh):
                 c = json.loads(line)
-                if i < 2:
+                if i < 2 and prop == "C16":
                     ctx.samples.append({"scenario": c["scenario"], "sched": c["sched"], "out": c["out"]})
                 if all(not o["reused"] for t in c["out"] for o in t):
                     both_miss += 1
-        ctx.nontrivial += both_miss
+        if prop == "C16":
+            ctx.nontrivial += both_miss
+        ctx.extra["forced_schedules"] = {"scenarios": cfgs, "both_miss": both_miss}
+
+
+@pipeline("C16")
+def c16(ctx, replay):
+    thorough = ctx.tier == "thorough"
+    ctx.rule = ("(i) schedules = every maximal behaviour of InnovPar for 2 threads (scenarios split-split, link-link, split-link, split-linksplit; thorough: "
+                "also two mutations per thread and sampled 3-thread schedules), each forced on real goroutines calling the real "
+                "mutateAddNode / mutateAddLink on a shared real Population through a gate at every primitive; outcomes validated by "
+                "Trace_InnovPar; (i') every interleaving of the primitive calls the real mutators themselves make (2 threads exhaustively, 3 threads "
+                "up to a cap; also with a pre-filled registry) found by a stateless search over which parked goroutine runs next, same "
+                "validation; (ii) every access to the innovation record in sequential and parallel epochs probed for the mutex "
+                "(Trace_LockSet); (iii) free-running parallel epochs under the Go race detector at GOMAXPROCS 1/4/16; (iv) parallel "
+                "epochs of the C02 scenario matrix validated by Trace_Epoch (C01/C02/C03 clauses); non-trivial = schedules in which "
+                "both threads looked the registry up before either stored (both miss)")
+    ctx.assumptions = ["non-modular genomes (quantifier)",
+                       "data-race freedom of the Go program is decided on observed executions (race detector) and by the lock-set probe; "
+                       "TLC decides the protocol for all interleavings within the model's bounds",
+                       "a schedule the real code does not follow is nonconformance (information), not a violation"]
+    ctx.vh_binary(pkg="vh_genome")
+    # ---------------------------------------------------------------- (i) protocol: model checking + schedule replay
+    cfgs = ["split-split", "link-link", "split-link", "split-linksplit"] + (["two-each"] if thorough else [])
+    forced_schedules(ctx, replay, "C16", cfgs, 3000 if thorough else 150)
     # ---------------------------------------------------------------- (i') exploration of the code's own interleavings
     # A stateless search over which parked goroutine to release next visits EVERY interleaving of the primitive calls the real
     # mutators make (however many they make), also with a pre-filled registry; outcomes are judged by Trace_InnovPar.
